@@ -45,6 +45,7 @@ MODELS = {
     "treereg": (lambda: PTreeReg(max_depth=2, random_state=0), ("predict",)),
     "kmeans": (lambda: PKMeans(n_clusters=2, n_init=2, random_state=0), ("predict", "transform")),
     "inplace-linreg": (lambda: InPlaceLinReg(), ("predict",)),
+    "warmstart-linreg": (lambda: WarmStartLinReg(), ("predict",)),
     "scaler": (lambda: PScaler(), ("transform",)),
     "pca": (lambda: PPCA(n_components=1), ("transform",)),
 }
@@ -72,6 +73,27 @@ class InPlaceLinReg(PLinReg):
 
     def predict(self, X):
         return numpy.asarray(X) @ numpy.asarray(self.coef_).ravel() + float(self.intercept_arr_[0])
+
+
+class WarmStartLinReg(PLinReg):
+    """A linear model whose fit starts from its previous state (warm start):
+    the new coefficients are the average of the old ones and the least-squares
+    solution.  Training a copy that lost the pretrained state gives another
+    model."""
+
+    def fit(self, X, y, sample_weight=None):
+        old = getattr(self, "coef_", None)
+        old_i = getattr(self, "intercept_", None)
+        PLinReg.fit(self, X, y, sample_weight)
+        if old is not None and numpy.shape(old) == numpy.shape(self.coef_):
+            self.coef_ = 0.5 * numpy.asarray(old) + 0.5 * self.coef_
+            self.intercept_ = 0.5 * old_i + 0.5 * self.intercept_
+        return self
+
+
+# only meaningful inside a TransferTransformer (a wrapper refitting it twice
+# would legitimately differ from a reference fitted once)
+TRANSFER_ONLY = ("warmstart-linreg",)
 
 
 def _first_column_twice(X):
@@ -134,7 +156,7 @@ class _Sim:
 
 
 def _target(name, data):
-    return data["yr"] if name in ("linreg", "treereg", "inplace-linreg") else data["y"]
+    return data["yr"] if name in ("linreg", "treereg", "inplace-linreg", "warmstart-linreg") else data["y"]
 
 
 def _reference(sim, name, data, method):
@@ -166,7 +188,7 @@ def _check_record(sim, who, model, data, name, kw):
 # ---------------------------------------------------------------------------
 def _run_learner(c, sim):
     ch = c.ch
-    name = ch.choice("w", sorted(MODELS), "model")
+    name = ch.choice("w", [m for m in sorted(MODELS) if m not in TRANSFER_ONLY], "model")
     methods = MODELS[name][1]
     mchoice = ch.choice("w", [None, "callable"] + list(methods), "method")
     method = _first_column_twice if mchoice == "callable" else mchoice
@@ -185,7 +207,7 @@ def _run_learner(c, sim):
     fitted = False
     nops = ch.integer("w", 3, 9, "nops")
     for k in range(nops):
-        kinds = ["fit", "transform", "transform", "set-model", "set-method", "clone", "fit-fail"]
+        kinds = ["fit", "transform", "transform", "set-model", "set-method", "clone", "fit-fail", "transform-reused-buffer"]
         op = ch.choice("w", kinds, "op")
         if len(c.scenario["ops"]) < 16:
             c.scenario["ops"].append(op)
@@ -226,8 +248,21 @@ def _run_learner(c, sim):
                     ("learner", "stale-bound-method" if stale else "output"),
                     "transform returned shape %r, the %r method of the currently configured model (%s) gives shape %r; equal to the configured model's own output: %s" % (out.shape, getattr(chosen, "__name__", chosen), cur_name, want.shape, not stale),
                 )
+        elif op == "transform-reused-buffer":
+            if not fitted:
+                continue
+            buf = data["Xp"].copy()
+            sim.env()
+            U.sut(c, "transform(buffer)", wr.transform, buf)
+            buf[...] = data["Xp"][::-1]
+            ok, out = U.sut(c, "transform(buffer refilled)", wr.transform, buf)
+            c.probe("buffer_reused")
+            if ok:
+                want = _reference(sim, cur_name, dict(data, Xp=data["Xp"][::-1].copy()), chosen)
+                if numpy.asarray(out).shape != want.shape or not U.arrays_equal(numpy.asarray(out), want, 1e-9, 1e-12):
+                    sim.viol("transparency", ("learner", "buffer-reuse"), "transform on an array object that was transformed before and refilled in place does not return the output for its current rows")
         elif op == "set-model":
-            cands = [m for m in sorted(MODELS) if callable(chosen) or chosen in MODELS[m][1]]
+            cands = [m for m in sorted(MODELS) if m not in TRANSFER_ONLY and (callable(chosen) or chosen in MODELS[m][1])]
             new_name = ch.choice("w", cands, "new-model")
             sim.env()
             ok, r = U.sut(c, "set_params(model)", wr.set_params, model=MODELS[new_name][0]())
@@ -262,7 +297,7 @@ def _run_learner(c, sim):
 def _run_stacking(c, sim):
     ch = c.ch
     method = ch.choice("w", ["predict", "predict_proba", "decision_function"], "method")
-    learners = [m for m in sorted(MODELS) if method in MODELS[m][1] and m not in ("kmeans",)]
+    learners = [m for m in sorted(MODELS) if method in MODELS[m][1] and m not in ("kmeans",) + TRANSFER_ONLY]
     transformers = ["scaler", "pca"]
     nm = ch.integer("w", 1, 4, "n-members")
     members = []
@@ -350,7 +385,7 @@ def _run_stacking(c, sim):
 # ---------------------------------------------------------------------------
 def _run_transfer(c, sim):
     ch = c.ch
-    name = ch.choice("w", ["logreg", "treeclf", "linreg", "treereg", "scaler", "kmeans", "pca", "inplace-linreg"], "inner")
+    name = ch.choice("w", ["logreg", "treeclf", "linreg", "treereg", "scaler", "kmeans", "pca", "inplace-linreg", "warmstart-linreg"], "inner")
     methods = MODELS[name][1]
     mchoice = ch.choice("w", [None] + list(methods), "method")
     copy_estimator = ch.choice("w", [True, False], "copy")
@@ -382,6 +417,7 @@ def _run_transfer(c, sim):
     cur = None
     frozen_ref = None  # state of the wrapped estimator when the transfer was last fitted
     follow_original = False  # copy_estimator=False and the user retrained the shared object
+    trained_from = None  # state of the wrapped estimator just before the last successful fit of the transfer
     for k in range(ch.integer("w", 2, 8, "nops")):
         op = ch.choice("w", ["fit", "transform", "fit", "fit-fail", "transform", "retrain-original", "set-estimator"], "op")
         if len(c.scenario["ops"]) < 16:
@@ -421,6 +457,7 @@ def _run_transfer(c, sim):
             if ok:
                 frozen_ref = snapshot if copy_estimator else None
                 follow_original = False
+                trained_from = snapshot
             fired = bool(c.fault_plan.fired)
             if op == "fit-fail":
                 if not ok:
@@ -465,7 +502,9 @@ def _run_transfer(c, sim):
             if follow_original:
                 want = numpy.asarray(getattr(original, method)(cur["Xp"]))
             elif trainable:
-                ref = MODELS[name][0]()
+                # what training the wrapped estimator (as it was when the
+                # transfer was fitted) on the current data gives
+                ref = pickle.loads(pickle.dumps(trained_from)) if trained_from is not None else MODELS[name][0]()
                 sim.env()
                 args = (cur["X"], _target(name, cur)) + ((cur["w"],) if cur["w"] is not None and name != "pca" else ())
                 if name == "pca":
